@@ -361,4 +361,23 @@ def severityName : Int → Bytes
   | 1 => b!"None" | 2 => b!"Low" | 3 => b!"Medium" | 4 => b!"High" | 5 => b!"Critical"
   | _ => b!"Unknown"
 
+/-! ### nil receivers: the nil guards of the Go methods -/
+
+/-- the error a nil receiver of each type reports -/
+def nilErr : Level → Err
+  | .base => .noBaseMetrics | .temporal => .noTemporalMetrics | .environmental => .noEnvironmentalMetrics
+
+/-- `GetError()` on a possibly-nil receiver -/
+def getErrorN (L : Level) : Option Obj3 → Option Err
+  | none => some (nilErr L)
+  | some o => getError L o
+/-- `Score()` on a possibly-nil receiver: every `Score` starts with `GetError()` -/
+def scoreN (L : Level) : Option Obj3 → Nat
+  | none => 0
+  | some o => score L o
+/-- `Encode()` on a possibly-nil receiver -/
+def encodeN (L : Level) : Option Obj3 → Bytes × Option Err
+  | none => ([], some (nilErr L))
+  | some o => encode L o
+
 end CvssVerif.V3
